@@ -138,6 +138,21 @@ func genC15Tree(t *rapid.T, depth int) *jv.V {
 	case 3:
 		s.Set("enum", jv.ArrV(jv.NumV("1"), jv.StrV("a"), jv.NullV()))
 	}
+	if n(8, "elsewheredefault") == 0 {
+		// a default that no chain of `properties` leads to: under items, allOf, additionalProperties
+		// or a lone `if` (ValidateDefaults covers the whole tree; ApplyDefaults never gets there)
+		holder := jv.ObjV(jv.Member{K: "type", V: jv.StrV("integer")}, jv.Member{K: "default", V: []*jv.V{jv.NumV("1"), jv.StrV("not-an-integer"), jv.NumV("2.5"), jv.NullV()}[n(4, "elsewhereval")]})
+		switch n(4, "elsewherekw") {
+		case 0:
+			s.Set("items", holder)
+		case 1:
+			s.Set("allOf", jv.ArrV(jv.ObjV(), holder))
+		case 2:
+			s.Set("additionalProperties", holder)
+		default:
+			s.Set("if", holder) // without then/else: no effect on validity
+		}
+	}
 	if n(3, "hasdefault") > 0 {
 		switch n(8, "defkind") {
 		case 0:
